@@ -202,11 +202,40 @@ def run_shard(ctx):
             is_query = True
         else:
             text, ordered, is_query = g.dml(), False, False
+        ptext, pdialect = text, 'mindsdb'
+        if i % 5 in (2, 4):
+            # the same statement with comments between its tokens (every comment style, also glued to the token before and starting
+            # with what could continue an expression: `--1`), read by one of the three parser dialects: comments mean nothing
+            try:
+                toks = monitors.lex_all(text, 'mindsdb')
+            except Exception:
+                toks = []
+            if len(toks) > 2:
+                ptext = text
+                for _ in range(r.choice([1, 1, 2])):
+                    # (mostly after a name, a number or a closing parenthesis: where an operator could follow)
+                    ends = [x for x in toks[:-1] if x[0] in ('ID', 'INTEGER', 'FLOAT', 'RPAREN', 'QUOTE_STRING')]
+                    t_ = r.choice(ends) if ends and r.random() < 0.7 else toks[r.randrange(len(toks) - 1)]
+                    cm = r.choice(['--1\n', '--x\n', '-- c\n', '/*c*/', '/* -- */', '--\n', '--+1\n', '/*1*/', '-- ;\n', '/**/', '--1\n', '--(1)\n', '--a\n', '--.5\n'])
+                    ptext = ptext[:t_[3]] + r.choice([' ', '']) + cm + ptext[t_[3]:] if ptext[t_[3]:t_[3] + 1] in (' ', '') else ptext
+                pdialect = r.choice(['mindsdb', 'mysql', 'mysql', 'sqlite', 'sqlite'])
+                acc.count('commented_variants')
         try:
-            tree = parse_sql(text, 'mindsdb')
+            tree = parse_sql(ptext, pdialect)
         except Exception as e:
-            acc.count('generator_text_rejected_by_parser')
-            continue
+            if ptext != text:
+                acc.count('commented_variant_rejected:' + pdialect)
+                try:
+                    tree = parse_sql(text, 'mindsdb')
+                    ptext, pdialect = text, 'mindsdb'
+                except Exception:
+                    acc.count('generator_text_rejected_by_parser')
+                    continue
+            else:
+                acc.count('generator_text_rejected_by_parser')
+                continue
+        if ptext != text:
+            acc.count('commented_variant_parsed:' + pdialect)
         states = [selgen.random_state(r) for _ in range(nstates)]
         for target in TARGETS:
             try:
@@ -276,7 +305,9 @@ def run_shard(ctx):
                     hints = clause_kind(text, rendered, g) or ['unattributed']
                     sig = {'kind': diff, 'target': target if target != 'postgresql' else 'postgresql', 'clause': '+'.join(sorted(hints)),
                            'stmt': 'query' if is_query else text.split()[0].upper()}
-                    acc.fail(sig, {'text': text, 'rendered': rendered, 'state': {k: v for k, v in st.items()},
+                    if ptext != text:
+                        sig['parsed'] = 'with-comments:' + pdialect
+                    acc.fail(sig, {'text': text, 'parsed_text': ptext, 'rendered': rendered, 'state': {k: v for k, v in st.items()},
                                    'expected': repr(a[2] if is_query else a[3])[:600], 'observed': repr(b[2] if is_query else b[3])[:600]})
                     break
                 elif len(acc.samples) < 5 and i % 31 == 0 and si == 0:
